@@ -3,10 +3,10 @@ package main
 // Part 2 of vh-c04: real ClientHandshake / ServerHandshake through an editing relay.
 
 import (
-	"bytes"
 	"context"
 	"fmt"
 	"io"
+	"os"
 	"sync"
 	"time"
 
@@ -19,7 +19,7 @@ import (
 )
 
 type hsCase struct {
-	Shape string `json:"shape"` // noauth claimtobe resumed
+	Shape string `json:"shape"` // noauth claimtobe fs token resumed
 	Dir   string `json:"dir"`   // c2s s2c
 	Kind  string `json:"kind"`  // none flip insert0 insert1 drop split
 	Frame int    `json:"frame"` // index of the frame (per direction) the edit applies to
@@ -98,20 +98,47 @@ type endpoints struct {
 	ccfg, scfg *security.SecurityConfig
 }
 
+var tokWorld *peer.TokenWorld
+
+func world() *peer.TokenWorld {
+	if tokWorld == nil {
+		w, err := peer.NewTokenWorld("verif.local")
+		if err != nil {
+			panic(err)
+		}
+		tokWorld = w
+	}
+	return tokWorld
+}
+
 func mkEndpoints(shape string) *endpoints {
 	p := peer.Policy{Auth: "NEVER", Enc: "REQUIRED", Integ: "REQUIRED", Methods: []string{"CLAIMTOBE"}, Ciphers: []string{"AES"}, Command: 60007}
 	if shape != "noauth" {
 		p.Auth = "REQUIRED"
 	}
+	switch shape {
+	case "fs":
+		p.Methods = []string{"FS"}
+	case "token":
+		p.Methods = []string{"TOKEN"}
+	}
 	e := &endpoints{ccfg: p.Config(), scfg: p.Config()}
+	if shape == "token" {
+		e.ccfg = world().Client(e.ccfg)
+		e.scfg = world().Server(e.scfg)
+	}
 	return e
 }
 
 type hsOutcome struct {
 	cli, srv    peer.Result
 	changed     bool
-	c2sAccepted bool
+	c2sAccepted bool // every application message client->server was delivered, in order
 	s2cAccepted bool
+	c2sGot      int  // application messages the server accepted (reading on after refusals)
+	s2cGot      int
+	c2sLate     bool // one was accepted AFTER an earlier one had been refused
+	s2cLate     bool
 	clearFrames map[string]int // cleartext frames per direction (baseline runs)
 	frameLens   map[string][]int
 	resumed     bool
@@ -119,9 +146,6 @@ type hsOutcome struct {
 
 // one connection through the relay
 func connect(e *endpoints, c hsCase) hsOutcome {
-	old := peer.Timeout
-	peer.Timeout = 900 * time.Millisecond
-	defer func() { peer.Timeout = old }()
 	cA, rA, _ := peer.Pipe()
 	rB, sB, _ := peer.Pipe()
 	r := &relay{c: c, frames: map[string][][]byte{}}
@@ -135,21 +159,33 @@ func connect(e *endpoints, c hsCase) hsOutcome {
 	go func() {
 		defer hw.Done()
 		out.srv = peer.RunServer(sB, e.scfg)
-		if out.srv.Err != nil {
+		// a failure BEFORE the key was installed ends the connection at once (that is also what
+		// releases the peer); after it, the stream stays open: its owner may read on
+		if out.srv.Err != nil && (out.srv.Stream == nil || !out.srv.Stream.IsEncrypted()) {
 			sB.Close()
 		}
 	}()
 	go func() {
 		defer hw.Done()
 		out.cli = peer.RunClient(cA, e.ccfg)
-		if out.cli.Err != nil {
+		if out.cli.Err != nil && (out.cli.Stream == nil || !out.cli.Stream.IsEncrypted()) {
 			cA.Close()
 		}
 	}()
 	hw.Wait()
-	if out.cli.Err == nil && out.srv.Err == nil && out.cli.Stream != nil && out.srv.Stream != nil {
-		out.c2sAccepted = exchange(out.cli.Stream, out.srv.Stream, []byte("application c2s"))
-		out.s2cAccepted = exchange(out.srv.Stream, out.cli.Stream, []byte("application s2c"))
+	// application phase: three messages each way; the receiver reads on after a refusal. It runs
+	// towards every endpoint whose key is installed - also one whose own handshake then failed
+	// (its first protected frame, the post-authentication ad, was refused): such an endpoint
+	// must not accept anything later either.
+	if out.cli.Stream != nil && out.srv.Stream != nil {
+		if out.srv.Stream.IsEncrypted() {
+			out.c2sGot, out.c2sLate = exchange(out.cli.Stream, out.srv.Stream, "application c2s")
+			out.c2sAccepted = out.c2sGot == nApp && out.cli.Err == nil && out.srv.Err == nil
+		}
+		if out.cli.Stream.IsEncrypted() {
+			out.s2cGot, out.s2cLate = exchange(out.srv.Stream, out.cli.Stream, "application s2c")
+			out.s2cAccepted = out.s2cGot == nApp && out.cli.Err == nil && out.srv.Err == nil
+		}
 	}
 	cA.Close()
 	sB.Close()
@@ -180,24 +216,62 @@ func connect(e *endpoints, c hsCase) hsOutcome {
 	return out
 }
 
-func exchange(from, to *stream.Stream, msg []byte) bool {
-	ctx, cancel := context.WithTimeout(context.Background(), 700*time.Millisecond)
+const nApp = 3
+
+// exchange: `from` sends nApp application messages, `to` issues nApp whole-message reads and
+// goes on after a refused one. Returns how many it accepted and whether one was accepted after
+// an earlier refusal. Only messages equal to what was sent, in order, count as "accepted in
+// order"; any OTHER accepted payload counts too (got) - nothing at all may come through.
+func exchange(from, to *stream.Stream, tag string) (got int, late bool) {
+	ctx, cancel := context.WithTimeout(context.Background(), peer.Timeout*3/4)
 	defer cancel()
-	done := make(chan bool, 1)
+	type res struct {
+		got  int
+		late bool
+	}
+	done := make(chan res, 1)
 	go func() {
-		got, err := to.ReceiveCompleteMessage(ctx)
-		done <- err == nil && bytes.Equal(got, msg)
+		var r res
+		refused := false
+		for i := 0; i < nApp; i++ {
+			if ctx.Err() != nil {
+				break
+			}
+			m, err := to.ReceiveCompleteMessage(ctx)
+			if err != nil {
+				refused = true
+				continue
+			}
+			_ = m
+			r.got++
+			if refused {
+				r.late = true
+			}
+		}
+		done <- r
 	}()
-	if err := from.SendMessage(ctx, msg); err != nil {
-		return false
+	for i := 0; i < nApp; i++ {
+		if err := from.SendMessage(ctx, []byte(fmt.Sprintf("%s %d", tag, i))); err != nil {
+			cancel()
+			break
+		}
 	}
 	select {
-	case ok := <-done:
-		return ok
-	case <-time.After(900 * time.Millisecond):
-		return false
+	case r := <-done:
+		return r.got, r.late
+	case <-time.After(peer.Timeout):
+		return 0, false
 	}
 }
+
+// Safety-net timeouts (never an oracle): a run whose relay removed bytes stalls until the
+// timeout, so the tampered runs use a short one; runs that must SUCCEED (the untampered baseline
+// of a shape, the re-run of an unexpected failure) get a long one, so that a loaded machine or a
+// slow /tmp (FS creates and checks a directory) cannot turn into a false "clean run failed".
+const (
+	stallTimeout = 900 * time.Millisecond
+	calmTimeout  = 20 * time.Second
+)
 
 // runShape performs the connection(s) of a shape with edit c applied to the LAST connection.
 func runShape(c hsCase) (hsOutcome, error) {
@@ -223,8 +297,12 @@ func runHS(h *hsCase) error {
 		}
 		return nil
 	}
-	if out.c2sAccepted || out.s2cAccepted {
-		return fmt.Errorf("%s: relay altered cleartext (%s frame %d %s off %d xor %#x) yet application data was accepted (c2s=%v s2c=%v)", h.Shape, h.Dir, h.Frame, h.Kind, h.Off, h.Xor, out.c2sAccepted, out.s2cAccepted)
+	if out.c2sGot > 0 || out.s2cGot > 0 {
+		msg := fmt.Sprintf("%s: relay altered cleartext (%s frame %d %s off %d xor %#x) yet application data was accepted (c2s %d of %d, s2c %d of %d; client handshake err=%v, server handshake err=%v)", h.Shape, h.Dir, h.Frame, h.Kind, h.Off, h.Xor, out.c2sGot, nApp, out.s2cGot, nApp, out.cli.Err != nil, out.srv.Err != nil)
+		if out.c2sLate || out.s2cLate || out.cli.Err != nil || out.srv.Err != nil {
+			return &oracleErr{"data-after-tamper-reading-on", msg + ": a receiver that read on after a refused protected frame accepted a later one"}
+		}
+		return fmt.Errorf("%s", msg)
 	}
 	return nil
 }
@@ -235,8 +313,24 @@ func runHS(h *hsCase) error {
 // protected frames are the LAST frame(s) of each direction.
 func part2(c *core.Ctx) {
 	peer.Quiet()
-	for _, shape := range []string{"noauth", "claimtobe", "resumed"} {
+	saved0 := peer.Timeout
+	defer func() { peer.Timeout = saved0 }()
+	defer func() {
+		if tokWorld != nil {
+			tokWorld.Cleanup()
+			tokWorld = nil
+		}
+	}()
+	// cedar's FS method prints a line per refused / vanished directory: keep the generator's stdout clean
+	if devnull, err := os.OpenFile(os.DevNull, os.O_WRONLY, 0); err == nil {
+		saved := os.Stdout
+		os.Stdout = devnull
+		defer func() { os.Stdout = saved; devnull.Close() }()
+	}
+	for _, shape := range []string{"noauth", "claimtobe", "fs", "token", "resumed"} {
+		peer.Timeout = calmTimeout
 		base, err := runShape(hsCase{Shape: shape, Kind: "none"})
+		peer.Timeout = stallTimeout
 		c.OracleCheck()
 		c.Evaluated(1)
 		if err != nil || base.cli.Err != nil || base.srv.Err != nil || !base.c2sAccepted || !base.s2cAccepted {
@@ -250,9 +344,9 @@ func part2(c *core.Ctx) {
 		}
 		// protected frames at the tail: s2c: post-auth ad (full handshakes only) + 1 app message;
 		// c2s: 1 app message. On a resumed session the server sends no cleartext at all or a short reply.
-		tail := map[string]int{"c2s": 1, "s2c": 2}
+		tail := map[string]int{"c2s": nApp, "s2c": nApp + 1}
 		if shape == "resumed" {
-			tail["s2c"] = 1
+			tail["s2c"] = nApp
 		}
 		c.Note(fmt.Sprintf("part 2 %s: frames c2s=%v s2c=%v (last %d/%d protected)", shape, base.frameLens["c2s"], base.frameLens["s2c"], tail["c2s"], tail["s2c"]))
 		stride := 1
@@ -263,14 +357,46 @@ func part2(c *core.Ctx) {
 		if c.Quick() {
 			xors = []int{0x01}
 		}
-		try := func(h hsCase) {
-			c.OracleCheck()
-			c.Evaluated(1)
-			if err := runHS(&h); err != nil {
-				c.OracleFail("binding-e2e", err.Error(), &desc{Part: 2, HS: &h})
+		var jobs []hsCase
+		try := func(h hsCase) { jobs = append(jobs, h) }
+		runJobs := func() {
+			// the runs of a shape are independent (own pipes, own configs and caches): four at a time.
+			// Most of a run's wall time is the 900 ms a stalled handshake waits for bytes the relay
+			// removed. Results are reported in generation order.
+			errs := make([]error, len(jobs))
+			var wg sync.WaitGroup
+			next := make(chan int)
+			for w := 0; w < 4; w++ {
+				wg.Add(1)
+				go func() {
+					defer wg.Done()
+					for i := range next {
+						errs[i] = runHS(&jobs[i])
+					}
+				}()
 			}
-			c.Nontrivial(fmt.Sprint(h))
-			c.Count("hs-" + shape + "-" + h.Kind)
+			for i := range jobs {
+				next <- i
+			}
+			close(next)
+			wg.Wait()
+			for i := range jobs {
+				h := jobs[i]
+				c.OracleCheck()
+				c.Evaluated(1)
+				err := errs[i]
+				if _, keyed := err.(*oracleErr); err != nil && !keyed {
+					// re-run alone and unhurried before reporting: the property is deterministic, a real failure reproduces
+					peer.Timeout = calmTimeout
+					err = runHS(&h)
+					peer.Timeout = stallTimeout
+				}
+				if err != nil {
+					c.OracleFail(keyOf(err, "binding-e2e"), err.Error(), &desc{Part: 2, HS: &h})
+				}
+				c.Nontrivial(fmt.Sprint(h))
+				c.Count("hs-" + shape + "-" + h.Kind)
+			}
 		}
 		for _, dir := range []string{"c2s", "s2c"} {
 			nclear := len(base.frameLens[dir]) - tail[dir]
@@ -294,6 +420,7 @@ func part2(c *core.Ctx) {
 				}
 			}
 		}
+		runJobs()
 		c.Sample(map[string]interface{}{"part": 2, "shape": shape, "frames_c2s": base.frameLens["c2s"], "frames_s2c": base.frameLens["s2c"]})
 	}
 }
